@@ -279,7 +279,7 @@ def body(ck, rng, work, thorough, model_ok):
             if bad is None:
                 st, pe = exit_of["OK" if lib_ok else "ERR"]
                 exp = (int(st), lib_out + ("Error: %s\n" % msg if pe == "T" else ""))
-                if (rc, out) != exp:
+                if (rc, out) != exp or ((rc == 0) != lib_ok):
                     bad = "exit status / stdout of the executable differ from the library's decision"
                 nontriv.add((act, lib_ok, lib_out, msg))
         elif act == "LINT":
@@ -291,7 +291,7 @@ def body(ck, rng, work, thorough, model_ok):
                     bad = "in-process parse of a missing file succeeded"
                 else:
                     exp = (int(exit_of["ERR"][0]), "Error: %s\n" % dec_str(f[3]))
-                    if (rc, out) != exp:
+                    if (rc, out) != exp or rc == 0:
                         bad = "lint of an unreadable file: exit status / stdout differ"
             else:
                 says, verdict = l_out[j["l"]].split("\t")
@@ -299,8 +299,12 @@ def body(ck, rng, work, thorough, model_ok):
                 dist["lint"][" ".join(v[:2])] = dist["lint"].get(" ".join(v[:2]), 0) + 1
                 nontriv.add(("LINT", j["text"]))
                 st = int(exit_of["OK" if v[0] == "OK" else "ERR"][0])
+                if (rc == 0) != (v[0] == "OK"):
+                    bad = "lint: exit status 0 must mean accepted (model: %s)" % verdict
                 marks = "MARK" in out.replace(fname, "")
-                if v[0] == "PARSE":
+                if bad:
+                    pass
+                elif v[0] == "PARSE":
                     if not (f[0] == "ERR" and f[1] == v[1] and f[2] == v[2]):
                         bad = "lint: model and library disagree on the parse error (%s / %s)" % (verdict, " ".join(f[:3]))
                     else:
